@@ -20,6 +20,6 @@ func (c09) SteerBatches() []string {
 func (c10) SteerBatches() []string { return c10Kinds }
 func (c12) SteerBatches() []string { return []string{"stream", "verify"} }
 func (c13) SteerBatches() []string { return []string{"ar"} }
-func (c15) SteerBatches() []string { return []string{"column", "members"} }
+func (c15) SteerBatches() []string { return []string{"members"} }
 func (c17) SteerBatches() []string { return []string{"full", "malformed"} }
 func (c19) SteerBatches() []string { return []string{"graph"} }
